@@ -381,14 +381,45 @@ def strip_comments(src):
     return "".join(out)
 
 
-def forbidden_tokens():
+def import_closure(roots):
+    """Lean source files (relative to lean/) reachable from the given modules through `import Gama.*` / `import Driver.*`"""
+    seen, todo = set(), list(roots)
+    while todo:
+        mod = todo.pop()
+        if mod in seen:
+            continue
+        f = LEAN / (mod.replace(".", "/") + ".lean")
+        if not f.exists():
+            continue
+        seen.add(mod)
+        for m in re.finditer(r"^\s*(?:public\s+)?import\s+((?:Gama|Driver)[\w.]*)", strip_comments(f.read_text()), re.M):
+            todo.append(m.group(1))
+    return sorted(seen)
+
+
+def forbidden_tokens(roots=None):
+    """forbidden constructs in the non-comment text of every file the property's targets depend on"""
     hits = []
-    for f in sorted((LEAN / "Gama").rglob("*.lean")) + sorted((LEAN / "Driver").rglob("*.lean")):
+    if roots is None:
+        files = sorted((LEAN / "Gama").rglob("*.lean")) + sorted((LEAN / "Driver").rglob("*.lean"))
+    else:
+        files = [LEAN / (m.replace(".", "/") + ".lean") for m in import_closure(roots)]
+    for f in files:
         txt = strip_comments(f.read_text())
         for m in FORBIDDEN.finditer(txt):
             line = txt.count("\n", 0, m.start()) + 1
             hits.append(f"{f.relative_to(LEAN)}:{line}: {m.group(0).strip()}")
     return hits
+
+
+def driver_roots(drivers):
+    """module names of the lean_exe roots declared in lakefile.toml"""
+    txt = (LEAN / "lakefile.toml").read_text()
+    roots = []
+    for m in re.finditer(r'\[\[lean_exe\]\]\s*name\s*=\s*"([^"]+)"\s*root\s*=\s*"([^"]+)"', txt):
+        if m.group(1) in drivers:
+            roots.append(m.group(2))
+    return roots
 
 
 def theorems_in(props_file):
@@ -500,7 +531,7 @@ def run_check(plugin, tier, seed):
         for d in decls or ["lake build failed (no location parsed)"]:
             broken.append(Broken("proof", d, log[-3000:]))
         ctx.log("lake build FAILED:", *decls[:5])
-    bad = forbidden_tokens()
+    bad = forbidden_tokens(lean_targets + driver_roots(drivers))
     for b in bad:
         broken.append(Broken("audit", "forbidden token " + b))
     names = []
